@@ -24,3 +24,58 @@ Proof.
     + cbn [map wmsg_payload snd]. rewrite Emap. reflexivity.
     + cbn [wstream wmsg_bytes]. rewrite Es, Est, <- !app_assoc. reflexivity.
 Qed.
+
+(* a request that was wrapped successfully was wrapped in the standard header, and the ports / length fit 16 bits *)
+Lemma tcp_wrap_ok_inv client server q w : tcp_wrap client server q = Ok w ->
+  w = std_request client server q /\ client < 65536 /\ server < 65536 /\ len q < 65536.
+Proof.
+  intros H.
+  assert (Hr : client < 65536 /\ server < 65536 /\ len q < 65536).
+  { destruct (N.lt_ge_cases client 65536) as [Hc|Hc]; [|exfalso].
+    2:{ destruct (header_overflow_refused client server (len q) 1) as [e E]; [left; exact Hc|].
+        unfold tcp_wrap, wpdu_to_bytes in H. rewrite E in H. discriminate. }
+    destruct (N.lt_ge_cases server 65536) as [Hs|Hs]; [|exfalso].
+    2:{ destruct (header_overflow_refused client server (len q) 1) as [e E]; [right; left; exact Hs|].
+        unfold tcp_wrap, wpdu_to_bytes in H. rewrite E in H. discriminate. }
+    destruct (N.lt_ge_cases (len q) 65536) as [Hq|Hq]; [|exfalso].
+    2:{ destruct (header_overflow_refused client server (len q) 1) as [e E]; [right; right; left; exact Hq|].
+        unfold tcp_wrap, wpdu_to_bytes in H. rewrite E in H. discriminate. }
+    repeat split; assumption. }
+  destruct Hr as (Hc & Hs & Hq). split; [|repeat split; assumption].
+  rewrite (wrap_is_header_plus_payload client server q Hc Hs Hq) in H. injection H as <-. reflexivity.
+Qed.
+
+(* whole sessions, no hypothesis on what the meter sent: if every send() of a session returned a payload, then exactly the
+   standard wrapped requests were written, in order, and the stream consists of standard messages carrying exactly the
+   payloads returned, in that order, followed by exactly what is left unread *)
+Theorem tcp_session_sound : forall client server reqs stream sched written ps rest sched' written',
+  bytes_ok stream ->
+  tcp_session client server reqs ((stream, sched), written) = (map Ok ps, ((rest, sched'), written')) ->
+  length ps = length reqs ->
+  written' = written ++ map (std_request client server) reqs /\
+  exists ms, Forall wmsg_ok ms /\ map wmsg_payload ms = ps /\ stream = wstream ms ++ rest.
+Proof.
+  intros client server reqs. induction reqs as [|q reqs IH];
+    intros stream sched written ps rest sched' written' Hb H Hlen.
+  - destruct ps; [|discriminate]. cbn in H. injection H as <- <- <-. split; [cbn; rewrite app_nil_r; reflexivity|].
+    exists []. repeat split. constructor.
+  - destruct ps as [|p ps]; [discriminate|]. injection Hlen as Hlen.
+    cbn [tcp_session tcp_send map] in H.
+    destruct (tcp_wrap client server q) as [w|e] eqn:Ew.
+    + destruct (tcp_wrap_ok_inv _ _ _ _ Ew) as (-> & _).
+      destruct (tcp_recv (stream, sched)) as [r [st1 sc1]] eqn:E1.
+      match type of H with context [tcp_session ?a ?b ?c ?d] =>
+        destruct (tcp_session a b c d) as [rs [[st2 sc2] w2]] eqn:E2 end.
+      injection H as -> -> <- <- <-.
+      destruct (tcp_recv_sound _ _ _ _ _ Hb E1) as (ver & src & dst & Es & Hl & Hs & Hd & Hv).
+      assert (Hb1 : bytes_ok st1).
+      { unfold bytes_ok in *. rewrite Es in Hb. apply Forall_app in Hb. destruct Hb as [_ Hb].
+        apply Forall_app in Hb. exact (proj2 Hb). }
+      destruct (IH st1 sc1 _ ps st2 sc2 w2 Hb1 E2 Hlen) as (Ew2 & ms & Hms & Emap & Est).
+      split; [rewrite Ew2, <- app_assoc; reflexivity|].
+      exists ((ver, src, dst, p) :: ms). repeat split.
+      * constructor; [|exact Hms]. cbn. repeat split; assumption.
+      * cbn [map wmsg_payload snd]. rewrite Emap. reflexivity.
+      * cbn [wstream wmsg_bytes]. rewrite Es, Est, <- !app_assoc. reflexivity.
+    + destruct (tcp_session client server reqs (stream, sched, written)) as [rs st'] eqn:E2. discriminate.
+Qed.
